@@ -20,6 +20,7 @@ class Op(object):
         self.ptr_type = None
         self.mem_bits = None
         self.lit = None
+        self.tree = False
 
 
 def _counts(ty):
@@ -30,7 +31,7 @@ OPS = []
 
 
 def op(*a, **k):
-    extra = dict((x, k.pop(x)) for x in ('whole', 'ptr_type', 'mem_bits', 'lit') if x in k)
+    extra = dict((x, k.pop(x)) for x in ('whole', 'ptr_type', 'mem_bits', 'lit', 'tree') if x in k)
     o = Op(*a, **k)
     for x, v in extra.items():
         setattr(o, x, v)
@@ -123,6 +124,7 @@ op('nearbyint_as_int', 'round', ['C08'], FPS, 'b', 'R_<{IT}>', 'xsimd::nearbyint
 op('is_flint', 'fp', C02, FPS, 'b', 'm', 'xsimd::is_flint(a)', S.is_flint_spec)
 op('is_even', 'fp', C02, FPS, 'b', 'm', 'xsimd::is_even(a)', S.is_even_spec)
 op('is_odd', 'fp', C02, FPS, 'b', 'm', 'xsimd::is_odd(a)', S.is_odd_spec)
+op('nextafter', 'fp', C02, FPS, 'bb', 'b', 'xsimd::nextafter(a, b)', S.nextafter_spec, tree=True)
 
 # ---- C03 (masks) ---------------------------------------------------------------
 from engine import terms as _T
